@@ -227,8 +227,9 @@ theorem hc_vtangent_orthogonal (sqrt : K → K) (vt : K) (h : HCContact K) (hn :
   simp only [hcContact]
   split_ifs <;> exact tangent_dot_normal _ _ hn
 
-/-- **without penetration the contact applies nothing and stores no energy** (`depth = 0`; contacts with
-`depth < 0` are never produced by the collision detector — C35 — and are outside the `√` of the Hertz formula) -/
+/-- **without penetration the contact applies nothing and stores no energy**.  Stated for `depth = 0`: a `PointContact` with
+`depth < 0` is unreachable (the collision detector only reports overlaps, C35) and lies outside the domain of the `√` in the
+Hertz formula -/
 theorem hc_vanishes_without_penetration (sqrt : K → K) (vt : K) (h : HCContact K) (hd : h.c.depth = 0) :
     (hcContact sqrt vt h).F1 = SpF.zero ∧ (hcContact sqrt vt h).F2 = SpF.zero ∧ (hcContact sqrt vt h).fn = 0
       ∧ (hcContact sqrt vt h).pe = 0 := by
@@ -560,5 +561,79 @@ theorem smooth_friction (sqrt tanh : K → K) (pow : K → K → K) (hs : SqrtSp
     have : dot _ _ = N := hN
     rw [this]
     exact mul_nonneg (div_nonneg hff hs0) hN0
+
+/-! ### magnitudes attached to the executed definitions -/
+
+/-- the approach speed and combined dissipation reported by `hcContact` do not depend on the branch taken -/
+theorem hc_vnormal_cdiss (sqrt : K → K) (vt : K) (h : HCContact K) :
+    (hcContact sqrt vt h).vnormal =
+        dot (stationVel h.X1 h.V1 (h.X1.invApply (h.c.location + smul (h.c.depth * (1 / 2 - h.p2.stiffness / (h.p1.stiffness + h.p2.stiffness))) h.c.normal))
+            - stationVel h.X2 h.V2 (h.X2.invApply (h.c.location + smul (h.c.depth * (1 / 2 - h.p2.stiffness / (h.p1.stiffness + h.p2.stiffness))) h.c.normal)))
+          h.c.normal
+    ∧ (hcContact sqrt vt h).cdiss = h.p1.dissipation * (h.p2.stiffness / (h.p1.stiffness + h.p2.stiffness))
+          + h.p2.dissipation * (1 - h.p2.stiffness / (h.p1.stiffness + h.p2.stiffness)) := by
+  simp only [hcContact]
+  split_ifs <;> exact ⟨rfl, rfl⟩
+
+/-- **Hunt–Crossley magnitude**: the scalar normal force of `hcContact` is the documented
+`f = (4/3)√R E x^{3/2}(1 + 3/2 c ẋ)` (`docHertzForce`, `ẋ = vnormal`, `c = cdiss`) whenever that is positive, else `0` -/
+theorem hc_fn_eq_doc (sqrt : K → K) (hs : SqrtSpec sqrt) (vt : K) (h : HCContact K) (hR : 0 ≤ h.c.radius)
+    (hk : 0 ≤ h.p1.stiffness * (h.p2.stiffness / (h.p1.stiffness + h.p2.stiffness))) (hx : 0 ≤ h.c.depth) :
+    (hcContact sqrt vt h).fn =
+      (let d := docHertzForce sqrt h.c.radius (h.p1.stiffness * (h.p2.stiffness / (h.p1.stiffness + h.p2.stiffness)))
+                  (hcContact sqrt vt h).cdiss h.c.depth (hcContact sqrt vt h).vnormal
+       if d ≤ 0 then 0 else d) := by
+  rw [(hc_vnormal_cdiss sqrt vt h).1, (hc_vnormal_cdiss sqrt vt h).2, ← hertz_force_eq_doc sqrt hs _ _ _ _ _ hR hk hx]
+  simp only [hcContact]
+  split_ifs <;> rfl
+
+/-- the penetration rate reported by `hertzContact` (penetrating case) -/
+theorem hertz_xdot (sqrt : K → K) (signif vtrans : K) (m1 m2 : HertzMat K)
+    (normal origin : V3 K) (depth : K) (p12 w12 v12 : V3 K) (R e : K) (hd : 0 < depth) :
+    (hertzContact sqrt signif vtrans m1 m2 normal origin depth p12 w12 v12 R e).xdot
+      = -(dot (v12 + cross w12 (origin + smul (depth * (1 / 2 - m2.k23 / (m1.k23 + m2.k23))) normal - p12)) normal) := by
+  simp only [hertzContact, if_neg (not_le.mpr hd)]
+  split_ifs <;> rfl
+
+/-- **Hertz generator magnitude** (circular contact `e = 1`, `depth > 0`): `fNormal` is the documented value when positive, else `0` -/
+theorem hertz_fNormal_eq_doc (sqrt : K → K) (hs : SqrtSpec sqrt) (signif vtrans : K) (m1 m2 : HertzMat K)
+    (normal origin : V3 K) (depth : K) (p12 w12 v12 : V3 K) (R : K) (hd : 0 < depth) (hR : 0 ≤ R)
+    (hk : 0 ≤ m1.k23 * (m2.k23 / (m1.k23 + m2.k23))) :
+    (hertzContact sqrt signif vtrans m1 m2 normal origin depth p12 w12 v12 R 1).fNormal =
+      (let d := docHertzForce sqrt R (m1.k23 * (m2.k23 / (m1.k23 + m2.k23)))
+                  (m1.c * (m2.k23 / (m1.k23 + m2.k23)) + m2.c * (1 - m2.k23 / (m1.k23 + m2.k23))) depth
+                  (hertzContact sqrt signif vtrans m1 m2 normal origin depth p12 w12 v12 R 1).xdot
+       if d ≤ 0 then 0 else d) := by
+  rw [hertz_xdot _ _ _ _ _ _ _ _ _ _ _ _ _ hd, ← hertz_normal_eq_doc sqrt hs _ _ _ _ _ hR hk hd.le]
+  simp only [hertzContact, if_neg (not_le.mpr hd)]
+  split_ifs <;> rfl
+
+/-- **elastic foundation magnitude**: the force of a spring along its displacement is the documented `k a x (1 + c v)`
+(`docEFForce`) when positive, else `0` -/
+theorem ef_f_eq_doc (sqrt : K → K) (vt : K) (P : EFParams K) (area : K) (np sp : V3 K) (X1 X2 : Pose K) (V1 V2 : Vel K) :
+    (efSpring sqrt vt P area np sp X1 X2 V1 V2).f =
+      (let o := efSpring sqrt vt P area np sp X1 X2 V1 V2
+       if 0 < docEFForce P.stiffness area o.x P.dissipation o.vnormal then docEFForce P.stiffness area o.x P.dissipation o.vnormal else 0) := by
+  simp only [efSpring, docEFForce]
+  by_cases h1 : ¬ (sqrt (normSq (np - sp)) < 0) ∧ ¬ (0 < sqrt (normSq (np - sp)))
+  · have h0 : sqrt (normSq (np - sp)) = 0 := le_antisymm (not_lt.mp h1.2) (not_lt.mp h1.1)
+    simp only [if_pos h1, h0]; simp
+  · simp only [if_neg h1]
+
+/-- `smooth_normal_sign` on the executed definition: the normal force `fhc_smooth` of `smoothSphere` is non-attractive in
+the regime `1 + 3/2 c v ≥ 0` and strictly attractive for faster separation whenever the Hertz term is non-zero
+(known finding `SmoothSphereHalfSpaceForce.fast_separation.*`) -/
+theorem smooth_normal_sign_model (sqrt tanh : K → K) (pow : K → K → K) (hs : SqrtSpec sqrt) (ht : TanhSpec tanh)
+    (hp : ∀ a b, 0 ≤ a → 0 ≤ pow a b) (P : SmoothParams K) (hk : 0 ≤ P.stiffness)
+    (Xs Xh : Pose K) (Vs Vh : Vel K) (loc : V3 K) (Xhs : Pose K) (radius : K) :
+    let o := smoothSphere sqrt tanh pow P Xs Xh Vs Vh loc Xhs radius
+    (0 ≤ 1 + 3 / 2 * P.dissipation * o.vnormal → 0 ≤ o.fhc_smooth)
+    ∧ (1 + 3 / 2 * P.dissipation * o.vnormal < 0 → 0 < o.fh_smooth → o.fhc_smooth < 0) := by
+  intro o
+  have e : o.fhc_smooth = o.fh_smooth * (1 + 3 / 2 * P.dissipation * o.vnormal)
+      * (1 / 2 + 1 / 2 * tanh (P.bv * (o.vnormal + 2 / (3 * P.dissipation)))) := rfl
+  rw [e]
+  exact smooth_normal_sign tanh ht o.fh_smooth P.dissipation o.vnormal P.bv
+    (smooth_fh_nonneg sqrt tanh pow hs ht hp P hk Xs Xh Vs Vh loc Xhs radius)
 
 end ForceLaws
